@@ -15,6 +15,17 @@
 (* "flag") or the timed condition `now > creation + d` (kind "timed").          *)
 (* timedPlannerTerminationCondition(d, interval) clamps interval to d.          *)
 (*                                                                              *)
+(* The predicate call is NOT atomic with the loop test nor with the store of its *)
+(* result: the evaluator goes  test (TLoop) -> call fn (TCall) -> store (TStore), *)
+(* and the caller's terminate() / eval() may land between any two of them - in   *)
+(* particular while the predicate is in flight.  TerminateSticky is checked on   *)
+(* every eval() result in all these interleavings.                               *)
+(* CONSTANT Variant selects the transcription: "code" is the library; "lost" is  *)
+(* a seeded variant (eval() of the periodic form reads only the cached value,    *)
+(* terminate() additionally sets the cached value, the evaluator still stores    *)
+(* unconditionally) in which a terminate() that lands while the predicate is in  *)
+(* flight is overwritten - TLC must reject it (vacuity gate of the check).       *)
+(*                                                                              *)
 (* Time is a discrete clock advanced by Tick; a sleeping quantum lasts one      *)
 (* tick, the thread's own statements take no time (Tick waits for a runnable    *)
 (* thread).  All timers saturate, so the state space is finite without a        *)
@@ -22,7 +33,8 @@
 EXTENDS Naturals, TLC
 
 CONSTANTS Periods,    \* periods explored (ticks); 0 = direct form
-          Durations   \* durations d of the timed kind (ticks)
+          Durations,  \* durations d of the timed kind (ticks)
+          Variant     \* "code" (the library) | "lost" (seeded lost-update variant, must be rejected)
 
 VARIABLES kind, P, D,      \* configuration chosen by Init, constant afterwards
           pv,              \* flag read by the user predicate
@@ -31,12 +43,13 @@ VARIABLES kind, P, D,      \* configuration chosen by Init, constant afterwards
           cached,          \* evalValue_
           term, stop,      \* terminate_, signalThreadStop_
           tpc, qi, zz,     \* evaluator thread: program counter, quanta slept, quantum pending
+          tv,              \* evaluator thread: value the in-flight predicate call returned
           cpc,             \* caller: "live" | "joining" | "dead"
           callerCalled,    \* ghost: fn was invoked on the caller's thread
           seenTrue,        \* ghost: some eval() already returned true
           lastAct          \* ghost: [act, r]
 
-vars == <<kind, P, D, pv, age, el, cached, term, stop, tpc, qi, zz, cpc, callerCalled, seenTrue, lastAct>>
+vars == <<kind, P, D, pv, age, el, cached, term, stop, tpc, qi, zz, tv, cpc, callerCalled, seenTrue, lastAct>>
 
 MaxP == CHOOSE m \in Periods : \A q \in Periods : q <= m
 MaxD == CHOOSE m \in Durations : \A q \in Durations : q <= m
@@ -53,7 +66,7 @@ Init == /\ kind \in {"flag", "timed"}
         /\ pv \in (IF kind = "flag" THEN BOOLEAN ELSE {FALSE})
         /\ age = 0 /\ el = 0
         /\ cached = FALSE /\ term = FALSE /\ stop = FALSE
-        /\ tpc = (IF P > 0 THEN "loop" ELSE "none") /\ qi = 0 /\ zz = FALSE
+        /\ tpc = (IF P > 0 THEN "loop" ELSE "none") /\ qi = 0 /\ zz = FALSE /\ tv = FALSE
         /\ cpc = "live" /\ callerCalled = FALSE /\ seenTrue = FALSE
         /\ lastAct = [act |-> "Init", r |-> FALSE]
 
@@ -61,63 +74,73 @@ Cfg == <<kind, P, D>>
 Note(a, r) == lastAct' = [act |-> a, r |-> r]
 
 (* ------------------------------ evaluator thread ------------------------------ *)
-TLoop == /\ tpc = "loop"
-         /\ IF term \/ stop
-            THEN tpc' = "done" /\ UNCHANGED <<cached, qi>>
-            ELSE cached' = PredVal /\ qi' = 0 /\ tpc' = "chk"
+TLoop == /\ tpc = "loop"                       \* while (!terminate_ && !signalThreadStop_)
+         /\ tpc' = (IF term \/ stop THEN "done" ELSE "call")
          /\ Note("TLoop", FALSE)
-         /\ UNCHANGED <<Cfg, pv, age, el, term, stop, zz, cpc, callerCalled, seenTrue>>
+         /\ UNCHANGED <<Cfg, pv, age, el, cached, term, stop, qi, zz, tv, cpc, callerCalled, seenTrue>>
+
+TCall == /\ tpc = "call"                       \* fn_() runs on the evaluator thread ...
+         /\ tv' = PredVal /\ tpc' = "store"
+         /\ Note("TCall", FALSE)
+         /\ UNCHANGED <<Cfg, pv, age, el, cached, term, stop, qi, zz, cpc, callerCalled, seenTrue>>
+
+TStore == /\ tpc = "store"                     \* ... and only then evalValue_ = <its result>
+          /\ cached' = tv /\ qi' = 0 /\ tpc' = "chk"
+          /\ Note("TStore", FALSE)
+          /\ UNCHANGED <<Cfg, pv, age, el, term, stop, zz, tv, cpc, callerCalled, seenTrue>>
 
 TChk == /\ tpc = "chk"
         /\ IF qi = P \/ term \/ stop
            THEN tpc' = "loop" /\ zz' = zz
            ELSE tpc' = "sleep" /\ zz' = TRUE
         /\ Note("TChk", FALSE)
-        /\ UNCHANGED <<Cfg, pv, age, el, cached, term, stop, qi, cpc, callerCalled, seenTrue>>
+        /\ UNCHANGED <<Cfg, pv, age, el, cached, term, stop, qi, tv, cpc, callerCalled, seenTrue>>
 
 TWake == /\ tpc = "sleep" /\ ~zz
          /\ qi' = qi + 1 /\ tpc' = "chk"
          /\ Note("TWake", FALSE)
-         /\ UNCHANGED <<Cfg, pv, age, el, cached, term, stop, zz, cpc, callerCalled, seenTrue>>
+         /\ UNCHANGED <<Cfg, pv, age, el, cached, term, stop, zz, tv, cpc, callerCalled, seenTrue>>
 
-Thread == TLoop \/ TChk \/ TWake
+Thread == TLoop \/ TCall \/ TStore \/ TChk \/ TWake
 
 (* ------------------------------ time ------------------------------ *)
 Tick == /\ tpc \in {"none", "done"} \/ (tpc = "sleep" /\ zz)
         /\ zz' = FALSE
         /\ age' = Min(age + 1, AgeCap) /\ el' = Min(el + 1, ElCap)
         /\ Note("Tick", FALSE)
-        /\ UNCHANGED <<Cfg, pv, cached, term, stop, tpc, qi, cpc, callerCalled, seenTrue>>
+        /\ UNCHANGED <<Cfg, pv, cached, term, stop, tpc, qi, tv, cpc, callerCalled, seenTrue>>
 
 (* ------------------------------ environment and caller ------------------------------ *)
 Flip == /\ kind = "flag"
         /\ pv' = ~pv /\ age' = 0
         /\ Note("Flip", FALSE)
-        /\ UNCHANGED <<Cfg, el, cached, term, stop, tpc, qi, zz, cpc, callerCalled, seenTrue>>
+        /\ UNCHANGED <<Cfg, el, cached, term, stop, tpc, qi, zz, tv, cpc, callerCalled, seenTrue>>
 
 CEval == /\ cpc = "live"
-         /\ LET r == term \/ (IF P > 0 THEN cached ELSE PredVal)
+         /\ LET r == IF Variant = "lost" /\ P > 0 THEN cached
+                     ELSE term \/ (IF P > 0 THEN cached ELSE PredVal)
             IN  /\ Note("Eval", r)
                 /\ seenTrue' = (seenTrue \/ r)
          /\ callerCalled' = (callerCalled \/ (P = 0 /\ ~term))
-         /\ UNCHANGED <<Cfg, pv, age, el, cached, term, stop, tpc, qi, zz, cpc>>
+         /\ UNCHANGED <<Cfg, pv, age, el, cached, term, stop, tpc, qi, zz, tv, cpc>>
 
 CTerminate == /\ cpc = "live" /\ ~term
               /\ term' = TRUE
+              /\ cached' = (IF Variant = "lost" /\ P > 0 THEN TRUE ELSE cached)
               /\ Note("Terminate", FALSE)
-              /\ UNCHANGED <<Cfg, pv, age, el, cached, stop, tpc, qi, zz, cpc, callerCalled, seenTrue>>
+              /\ UNCHANGED <<Cfg, pv, age, el, stop, tpc, qi, zz, tv, cpc, callerCalled, seenTrue>>
 
 (* last reference dropped: ~Impl() sets the stop flag and joins the thread *)
 CDestroy == /\ cpc = "live"
             /\ stop' = TRUE
             /\ cpc' = (IF tpc = "none" THEN "dead" ELSE "joining")
             /\ Note("Destroy", FALSE)
-            /\ UNCHANGED <<Cfg, pv, age, el, cached, term, tpc, qi, zz, callerCalled, seenTrue>>
+            /\ UNCHANGED <<Cfg, pv, age, el, cached, term, tpc, qi, zz, tv, callerCalled, seenTrue>>
 
 CJoin == /\ cpc = "joining" /\ tpc = "done"
          /\ cpc' = "dead"
          /\ Note("Join", FALSE)
-         /\ UNCHANGED <<Cfg, pv, age, el, cached, term, stop, tpc, qi, zz, callerCalled, seenTrue>>
+         /\ UNCHANGED <<Cfg, pv, age, el, cached, term, stop, tpc, qi, zz, tv, callerCalled, seenTrue>>
 
 Next == Thread \/ Tick \/ Flip \/ CEval \/ CTerminate \/ CDestroy \/ CJoin
 
@@ -129,7 +152,7 @@ IsEval == lastAct'.act = "Eval"
 R == lastAct'.r
 
 TypeOK == /\ P \in 0..MaxP /\ D \in 0..MaxD /\ qi \in 0..P
-          /\ tpc \in {"none", "loop", "chk", "sleep", "done"}
+          /\ tpc \in {"none", "loop", "call", "store", "chk", "sleep", "done"}
           /\ (P = 0) = (tpc = "none")
           /\ cpc \in {"live", "joining", "dead"}
 
@@ -146,6 +169,8 @@ DirectExact == [][ (IsEval /\ P = 0) => R = (term \/ PredVal) ]_vars
 (* polling instant) eval() reports exactly that value                                   *)
 LagBound == [][ (IsEval /\ P > 0 /\ kind = "flag" /\ ~term /\ age >= P + 1) => R = pv ]_vars
 
+(* once terminate() has returned every eval() is true - whatever the evaluator thread was *)
+(* doing when it landed (before the loop test, inside the predicate, before the store)    *)
 TerminateSticky == [][ /\ term => term'
                        /\ (IsEval /\ term) => R ]_vars
 
